@@ -59,12 +59,16 @@ int vrt_arg_has(const char *name);
 void vrt_violation(const char *key, const char *fmt, ...)
     __attribute__((format(printf, 2, 3)));
 int vrt_num_violations(void);
+/* like vrt_violation, but the workload goes on (see vrt.c) */
+void vrt_finding(const char *key, const char *fmt, ...) __attribute__((format(printf, 2, 3)));
 #define VRT_CHECK(cond, key, ...)                                              \
     do {                                                                       \
         if (!(cond))                                                           \
             vrt_violation(key, __VA_ARGS__);                                   \
     } while (0)
 /* harness-internal failure (not a property violation): exit code 2 */
+/* text printed by the crash handler (which case was running) */
+void vrt_crash_label(const char *label);
 void vrt_fatal(const char *fmt, ...) __attribute__((format(printf, 1, 2), noreturn));
 #define VRT_ABT(call)                                                          \
     do {                                                                       \
